@@ -7,11 +7,14 @@ import (
 	"os"
 	"strconv"
 
+	mlog "github.com/google/martian/v3/log"
+
 	"verif/harness/core"
 )
 
 func main() {
 	args := os.Args[1:]
+	mlog.SetLevel(mlog.Silent)
 	if len(args) >= 2 && args[0] == "--child" {
 		f := core.LookupChild(args[1])
 		if f == nil {
